@@ -72,6 +72,25 @@ func (v Val) build() any {
 			}
 		}
 		return out
+	case "nan":
+		return math.NaN()
+	case "inf":
+		if v.B {
+			return math.Inf(-1)
+		}
+		return math.Inf(1)
+	case "nanstruct":
+		// a value without a JSON encoding that carries a string: json.Marshal fails on the float
+		return struct {
+			Label string
+			Ratio float64
+		}{string(v.S), math.NaN()}
+	case "chanstruct":
+		return struct {
+			Label string
+			C     chan int
+			F     func()
+		}{Label: string(v.S)}
 	case "struct":
 		r := record{Name: string(v.S), Note: string(v.S) + "!", Count: int(v.I)}
 		for _, k := range v.Keys {
@@ -94,7 +113,7 @@ type Case struct {
 
 var rec = ev.New("C03", "c03.positions",
 	"compiled fixtures for every JavaScript position (bare {{ }}, inside '…', \"…\", `…`, a script with comments/quotes/escapes around several expressions, script template in on* attribute and as component, templ.JSFuncCall in attribute and as component with generated function names, JSON script element) are rendered with generated Go values "+
-		"(strings over a JS/HTML-adversarial alphabet, every scalar value as a one-rune string in the thorough tier, invalid UTF-8, ints, finite floats, bools, nil, nested slices/maps/structs); oracle 1: HTML5 tokenizer sees the same structure as for a benign value (script element = one text token, on* attribute = one attribute); "+
+		"(strings over a JS/HTML-adversarial alphabet, every scalar value as a one-rune string in the thorough tier, invalid UTF-8, ints, finite floats, bools, nil, nested slices/maps/structs, and values without a JSON encoding - NaN, Inf, structs holding a channel/func or NaN next to a string - for which only oracle 1 and the sentinel part of oracle 2 apply); oracle 1: HTML5 tokenizer sees the same structure as for a benign value (script element = one text token, on* attribute = one attribute); "+
 		"oracle 2: V8 evaluates the emitted script bodies and decoded attribute values: no syntax error or exception, no sentinel (alert/pwn) call, and the values reaching cap() equal JSON.stringify(JSON.parse(<Go's JSON encoding>)) computed in the same engine (the original string for in-literal positions). "+
 		"Non-trivial = the value contains a JS- or HTML-sensitive character; distinct by (position, value)")
 
@@ -194,6 +213,9 @@ func decide(c Case) error {
 	}
 	out, err := render(component(c, v))
 	if err != nil {
+		if _, jerr := json.Marshal(v); jerr != nil && !strings.Contains(err.Error(), "panic") {
+			return nil // a value without JSON encoding may be refused with an error
+		}
 		return fmt.Errorf("render error: %v", err)
 	}
 	toks, err := htmltok.Tokens(out)
@@ -233,6 +255,19 @@ func decide(c Case) error {
 				}
 			}
 		}
+	}
+	if _, jerr := json.Marshal(v); jerr != nil {
+		// The value has no JSON encoding (NaN, Inf, a channel or func inside it): there is nothing
+		// the emitted JavaScript could be equal to. What remains of the statement: it still cannot
+		// leave its place (oracle 1 above) and cannot run code - whatever templ emits for it, the
+		// engine must not reach a sentinel. A script that does not evaluate runs nothing.
+		var code []string
+		code = append(code, scripts...)
+		code = append(code, handlers...)
+		if r := engine.RunSeq(code, "var ns = {cap: cap};"); r.Sentinels > 0 {
+			return fmt.Errorf("emitted JavaScript executed attacker code (sentinel called %d times) for a value without JSON encoding: scripts %q; output %q", r.Sentinels, clip(fmt.Sprint(code)), clip(string(out)))
+		}
+		return nil
 	}
 	// oracle 2: evaluation
 	j := mustJSON(v)
@@ -347,11 +382,23 @@ func init() {
 
 func genVal(depth int) *rapid.Generator[Val] {
 	return rapid.Custom(func(t *rapid.T) Val {
-		k := rapid.IntRange(0, 11).Draw(t, "kind")
-		if depth <= 0 && k >= 8 {
+		k := rapid.IntRange(0, 12).Draw(t, "kind")
+		if depth <= 0 && k >= 8 && k != 12 {
 			k = 0
 		}
 		switch {
+		case k == 12:
+			// values encoding/json refuses, alone or carrying a string
+			switch rapid.IntRange(0, 4).Draw(t, "unencodable") {
+			case 0:
+				return Val{Kind: "nan"}
+			case 1:
+				return Val{Kind: "inf", B: rapid.Bool().Draw(t, "neg")}
+			case 2:
+				return Val{Kind: "chanstruct", S: ev.QStr(sgen.JSString().Draw(t, "label"))}
+			default:
+				return Val{Kind: "nanstruct", S: ev.QStr(sgen.JSString().Draw(t, "label"))}
+			}
 		case k <= 4:
 			return Val{Kind: "string", S: ev.QStr(sgen.JSString().Draw(t, "s"))}
 		case k == 5:
